@@ -26,13 +26,11 @@ func PrepareSchedReplay(l *Loaded, spec *ReplaySpec, dir string, r *RunResult, v
 	if err := os.MkdirAll(dir, 0o755); err != nil {
 		return err
 	}
-	keys, err := r.scheduleKeys(v.Values)
-	if err != nil {
-		return err
-	}
 	cfg := r.Cfg
 	cfg.Fixed = v.Values
-	cfg.FixedKeys = keys
+	if r.ex != nil && r.ex.sched != nil {
+		cfg.SlotIDs = r.ex.sched.SlotIDs
+	}
 	cfg.Name = r.Cfg.Name + "-concrete"
 	cfg.Workers = 2
 	cfg.Cross = nil
@@ -49,6 +47,14 @@ func PrepareSchedReplay(l *Loaded, spec *ReplaySpec, dir string, r *RunResult, v
 	}
 	// did the concrete run fail the same obligation?
 	v.ConcreteConfirmed = false
+	if os.Getenv("VERIF_DEBUG") != "" {
+		fmt.Printf("[concrete] trace=%v phases=%v inconcl=%v\n", res.ex.sched.Trace, res.ex.sched.PhaseSteps, res.Inconcl)
+		for _, o := range res.Obligations {
+			if o.Result == Sat && o.Kind != "cover" {
+				fmt.Printf("[concrete] fails: %s %q at %s guard=%s cond=%s\n", o.Kind, o.Label, o.Pos, res.ex.tb.Show(o.G), res.ex.tb.Show(o.Cond))
+			}
+		}
+	}
 	for _, o := range res.Obligations {
 		if o.Kind == v.Ob.Kind && o.Label == v.Ob.Label && o.Result == Sat {
 			v.ConcreteConfirmed = true
@@ -74,28 +80,6 @@ func PrepareSchedReplay(l *Loaded, spec *ReplaySpec, dir string, r *RunResult, v
 	spec.SchedRT = true
 	spec.Env = append(spec.Env, "VERIF_SCHED="+filepath.Join(dir, "sched.json"))
 	return nil
-}
-
-// scheduleKeys maps the model's schedule variables to slot identities.
-func (r *RunResult) scheduleKeys(values map[string]string) ([]string, error) {
-	if r.ex == nil || r.ex.sched == nil {
-		return nil, fmt.Errorf("not a goroutine-mode run")
-	}
-	sk := r.ex.sched.SlotKeys
-	out := make([]string, len(sk))
-	for i := range sk {
-		vs, ok := values[fmt.Sprintf("sched!%d", i)]
-		if !ok {
-			out[i] = ""
-			continue
-		}
-		var n int
-		fmt.Sscan(vs, &n)
-		if n >= 0 && n < len(sk[i]) {
-			out[i] = sk[i][n]
-		}
-	}
-	return out, nil
 }
 
 type edit struct {
